@@ -49,7 +49,10 @@ def abstract_private(statement: str) -> str:
     """Findings are matched against known_findings.json with private
     identifiers abstracted, so renaming a private helper does not turn a
     recorded finding into a new one."""
-    return _PRIVATE.sub("_P", statement or "")
+    t = _PRIVATE.sub("_P", statement or "")
+    # the name a value is bound to is a local detail as well: `x = f()` is
+    # matched on `= f()`
+    return re.sub(r"^[A-Za-z_][A-Za-z0-9_]*(\s*:\s*[^=]+)?\s*=\s*(?!=)", "= ", t)
 
 
 def load_known() -> dict:
